@@ -248,7 +248,11 @@ func visitInstr(fr *frame, instr ssa.Instruction) continuation {
 		panic(targetPanic{fr.get(instr.X)})
 
 	case *ssa.Send:
-		fr.get(instr.Chan).(chan value) <- fr.get(instr.X)
+		select {
+		case fr.get(instr.Chan).(chan value) <- fr.get(instr.X):
+		default:
+			panic(blockedForever{"send on a channel nobody receives from"})
+		}
 
 	case *ssa.Store:
 		store(mustDeref(instr.Addr.Type()), fr.get(instr.Addr).(*value), fr.get(instr.Val))
@@ -407,6 +411,14 @@ func visitInstr(fr *frame, instr ssa.Instruction) continuation {
 				Send: send,
 			})
 		}
+		if instr.Blocking {
+			// probe readiness first: with inline goroutines a blocking select
+			// that is not ready now never becomes ready
+			probe := append([]reflect.SelectCase{{Dir: reflect.SelectDefault}}, cases...)
+			if c, _, _ := reflect.Select(probe); c == 0 {
+				panic(blockedForever{"select with no ready case"})
+			}
+		}
 		chosen, recv, recvOk := reflect.Select(cases)
 		if !instr.Blocking {
 			chosen-- // default case should have index -1.
@@ -511,9 +523,9 @@ func callSSA(i *interpreter, caller *frame, callpos token.Pos, fn *ssa.Function,
 	}
 	ex := i.ex
 	ex.curFrame = fr
-	defer func() { ex.curFrame = caller }()
 	if fn.Synthetic == "package initializer" && fn.Pkg != nil {
 		if !InitOK(fn.Pkg.Pkg.Path()) {
+			ex.curFrame = caller
 			return nil
 		}
 		i.inited[fn.Pkg] = true
@@ -526,13 +538,17 @@ func callSSA(i *interpreter, caller *frame, callpos token.Pos, fn *ssa.Function,
 			name = fn.String()
 		}
 		if se := symExternals[name]; se != nil && anySym(args) {
-			return se(fr, args)
+			r := se(fr, args)
+			ex.curFrame = caller
+			return r
 		}
 		if ext := externals[name]; ext != nil {
 			if i.mode&EnableTracing != 0 {
 				fmt.Fprintln(os.Stderr, "\t(external)")
 			}
-			return ext(fr, args)
+			r := ext(fr, args)
+			ex.curFrame = caller
+			return r
 		}
 		if fn.Blocks == nil {
 			panic("no code for function: " + name)
@@ -563,6 +579,7 @@ func callSSA(i *interpreter, caller *frame, callpos token.Pos, fn *ssa.Function,
 	for fr.block != nil {
 		runFrame(fr)
 	}
+	ex.curFrame = caller
 	// Destroy the locals to avoid accidental use after return.
 	for i := range fn.Locals {
 		fr.locals[i] = bad{}
@@ -596,7 +613,7 @@ func runFrame(fr *frame) {
 		fr.panicking = true
 		fr.panic = recover()
 		switch fr.panic.(type) {
-		case pathAbort, engineUnsupported:
+		case pathAbort, engineUnsupported, blockedForever:
 			panic(fr.panic)
 		case *runtime.TypeAssertionError:
 			panic(fr.panic)
@@ -605,6 +622,7 @@ func runFrame(fr *frame) {
 			fmt.Fprintf(os.Stderr, "Panicking: %T %v.\n", fr.panic, fr.panic)
 		}
 		fr.runDefers()
+		fr.i.ex.curFrame = fr
 		fr.block = fr.fn.Recover
 	}()
 
@@ -846,7 +864,24 @@ func redirect(fn *ssa.Function) *ssa.Function {
 	return alt
 }
 
+// blockedForever: the current (inline) goroutine can make no progress.
+type blockedForever struct{ why string }
+
+// runGoroutine runs a goroutine inline to completion at the go statement. A
+// goroutine that blocks (timer loops, workers waiting on a queue) is parked
+// forever: control returns to the spawner (stated in DESIGN §2.4).
 func runGoroutine(fr *frame, instr *ssa.Go, fn value, args []value) {
+	ex := fr.i.ex
+	defer func() {
+		if r := recover(); r != nil {
+			if _, ok := r.(blockedForever); ok {
+				ex.curFrame = fr
+				ex.parked++
+				return
+			}
+			panic(r)
+		}
+	}()
 	call(fr.i, nil, instr.Pos(), fn, args)
 }
 
